@@ -41,7 +41,8 @@ def gen_params(rng, transport):
 
 
 def gen_resp(rng):
-    return {"v4": rng.choice([None, 0x01020304, 0, 0x0a010005]), "v6": rng.choice([None, "fd0000000000000000000000000000ee", "0102"]),
+    return {"v4": rng.choice([None, 0x01020304, 0, 0x0a010005]),
+            "v6": rng.choice([None, "fd0000000000000000000000000000ee", "fd0000000000000000000000000000ee", "0102", "00000000000000000000ffff01020304"]),
             "port": rng.choice([None, 22, 443, 70000]), "params": rng.choice([None, {"kind": "generic", "randomize": True},
                                                                              {"kind": "prefix", "prefix_id": 2}])}
 
@@ -190,7 +191,10 @@ def gcase(c, r):
     else:
         payload = "None"
     fr = q["forged_resp"]
-    gforged = "None" if fr is None else "(Some (mkResp %s %s %s None))" % (gopt(fr["v4"], gN), gb(fr["v6"]), gopt(fr["port"], gN))
+    if c["kind"] == "st":
+        gforged = gview(fwdo["resp"]) if fwdo else "None"     # the response the station is handed, parameters included
+    else:
+        gforged = "None" if fr is None else "(Some (mkResp %s %s %s None))" % (gopt(fr["v4"], gN), gb(fr["v6"]), gopt(fr["port"], gN))
     greq = "(mkReq %s %s %s %s %s %s %s)" % (hexs(bytes.fromhex(q["secret"])), payload, gforged, gb(q["forged_bytes"]), gb(q["forged_sig"]),
                                            gN(q["source"] or 0), gb(q["addr"]))
     sel = c["sel"]
@@ -245,7 +249,7 @@ def gcase(c, r):
         gstat = "(Some (Some %s))" % glist(r["station"]["regs"] or [], lambda g: "(%s, %s, %s)" % (
             hexs(bytes.fromhex(g["phantom"])), gN(g["port"]), gcanon(g["params"])))
     gobs = "(mkObs %s %s %s %s %s)" % (gN(code), gview(r["resp"]), gbool(r["sent"] > 0), gfwd, gstat)
-    return "(mkCase %s %s %s %s %s %s %s %s)" % (gbool(c["kind"] == "uni"), gcfg, greq, gb(c["client_addr"]), gN(c["method"]), genv, gst, gobs)
+    return "(mkCase %s %s %s %s %s %s %s %s)" % (gN({"bd": 0, "uni": 1, "st": 2}[c["kind"]]), gcfg, greq, gb(c["client_addr"]), gN(c["method"]), genv, gst, gobs)
 
 
 # ------------------------------------------------------------------ direct oracle
@@ -269,6 +273,14 @@ def oracle(ctx, c, r):
     if r["panic"]:
         # panics at these entry points belong to C11; here they only make the case useless
         return "panic"
+    if c["kind"] == "st":
+        st = r["station"]
+        if st is not None and not st["err"] and q["disable_ov"]:
+            for g in st["regs"] or []:
+                if r["or"]["st_parse_req"]["ok"] and g["params"] != r["or"]["st_parse_req"]["params"]:
+                    ctx.fail("station-override-when-disabled", "the station replaced the client's transport parameters although the client "
+                             "disabled registrar overrides: %s" % short(c), c)
+        return "st/" + ("err" if st is None or st["err"] else "regs%d" % len(st["regs"] or []))
     if c["kind"] == "uni":
         if fw is not None and (fw["resp"] is not None or fw["has_bytes"] or fw["has_sig"]):
             ctx.fail("forged-copied/uni", "a unidirectional registration was forwarded with a registration response / signature "
@@ -352,9 +364,27 @@ def run(ctx):
     cases = []
     for f in (ctx.replay or {}).get("failures", []) + (ctx.replay or {}).get("theorem_or_correspondence", []):
         c = f.get("case")
-        if isinstance(c, dict) and c.get("kind") in ("bd", "uni") and "cfg" in c:
+        if isinstance(c, dict) and c.get("kind") in ("bd", "uni", "st") and "cfg" in c:
             cases.append(c)
     cases += [gen_case(rng) for _ in range(700 if quick else 6000)]
+    for _ in range(200 if quick else 2000):       # hand-made (possibly hostile) wrappers straight into the station
+        c = gen_case(rng, steer=False)
+        c["kind"] = "st"
+        q = c["req"]
+        if rng.random() < 0.85:
+            q["forged_resp"] = gen_resp(rng)
+        q["payload"] = rng.random() < 0.97
+        if rng.random() < 0.8:     # mostly well-formed apart from the response
+            q["v4"], q["v6"] = rng.choice([(True, True), (True, True), (True, False), (False, True)])
+            q["transport"] = rng.choice([1, 4])
+            q["params"] = {"kind": "prefix", "randomize": rng.choice([True, False]), "prefix_id": rng.choice([0, 1, 2, 5])} if q["transport"] == 4 \
+                else rng.choice([{"kind": "generic", "randomize": True}, {"kind": "none"}])
+            q["libver"], q["gen"] = 4, rng.choice([0, 1, 2, 3])
+            q["addr"] = rng.choice(["c0000207", "00000000000000000000ffffc0000207", "c0000207", "20010db8000000000000000000000009"])
+            c["station"] = {"v4": True, "v6": True, "transports": [1, 4]}
+            if q["forged_resp"] and rng.random() < 0.7:
+                q["forged_resp"]["v6"] = rng.choice([None, "fd0000000000000000000000000000ee"])
+        cases.append(c)
     cases += weight_cases(rng, 150 if quick else 1200)
     rc, out, res = ctx.go_inpkg(".", PKG, FILES, "^TestVerifC12$", cases, extra_overlay=EXTRA, timeout=900)
     if res is None or len(res) != len(cases):
@@ -386,8 +416,8 @@ def run(ctx):
     ctx.sample({"case": cases[0], "observed": res[0]})
     ctx.sample({"case": cases[1], "observed": res[1]})
     ctx.require_kinds(["bd/ok/plain/t1", "bd/ok/plain/t4", "bd/ok/subst/t1", "bd/ok/subst/t4", "bd/err-other", "bd/err-noc2s", "bd/err-secret",
-                       "bd/err-procfailed", "uni/sent", "uni/rejected"])
-    mm = ctx.coq_mismatches("reg", HEADER, terms, "chk", shard=150, need_vo=["C12/Run.vo"])
+                       "bd/err-procfailed", "uni/sent", "uni/rejected", "st/err", "st/regs1", "st/regs2"])
+    mm = ctx.coq_mismatches("reg", HEADER, terms, "chk", shard=150, need_vo=["C12/Run.vo", "C12/Examples.vo"])
     if mm:
         ctx.cov["mismatches"] += len(mm)
         i = mm[0]
